@@ -1,7 +1,1 @@
-; Identity membership of a value in a sequence: ismem(s, x) stands for (seq.contains s (seq.unit x)).
-; It is kept uninterpreted so that proofs about it are E-matching over the facts below and the instance facts the executor emits
-; where it builds a list (concatenation, append, prefix, member at an index); each fact schema is a theorem of the
-; seq.contains reading, re-proved on every run by lemma IS-MEM (spec/lemmas/ismem_*.smt2).
-(declare-fun ismem ((Seq V) V) Bool)
-(assert (forall ((x V)) (! (not (ismem (as seq.empty (Seq V)) x)) :pattern ((ismem (as seq.empty (Seq V)) x)))))
-(assert (forall ((c V) (x V)) (! (= (ismem (seq.unit c) x) (= x c)) :pattern ((ismem (seq.unit c) x)))))
+; (identity-membership vocabulary now lives at the top of spec/speclib.smt2)
